@@ -959,8 +959,14 @@ func (v *FnVC) callMods(ci ssa.CallInstruction) *ModSet {
 				return ms
 			}
 		}
+		if de := v.w.decodeEffect(sc, c, v.w.mods); de != nil {
+			ms.union(de)
+			return ms
+		}
 		ms.union(v.w.mods.Of(sc))
-		if v.w.IsParametric(sc) {
+		// a module function that only calls what it is given, or a library function that is handed function
+		// values (filepath.Walk, sync.Once.Do, ...): the effect of the call includes the effect of those functions
+		if v.w.IsParametric(sc) || (!v.w.InModule(sc) && hasFuncArg(c)) {
 			targets, ok := funcArgTargets(c, ci.Parent(), v.w)
 			if !ok {
 				ms.Top = true
@@ -1555,8 +1561,21 @@ func (v *FnVC) backEdge(fr *frame, li *loopInfo, from *ssa.BasicBlock, st *State
 	h := li.header
 	ec := fr.edge[[2]int{from.Index, h.Index}]
 	if v.con != nil && fr.top && li.headState != nil {
+		// hidden loop variables (rangeindex) denote their value at the head of the iteration
+		ovHead := map[string]Val{}
+		for _, ins := range h.Instrs {
+			phi, ok := ins.(*ssa.Phi)
+			if !ok {
+				break
+			}
+			if phi.Comment != "" {
+				if hv, ok := fr.vals[phi]; ok {
+					ovHead[phi.Comment] = hv
+				}
+			}
+		}
 		for _, c := range v.con.Iterations[li.ordinal] {
-			env := &specEnv{v: v, fr: fr, st: st, old: li.headState, loop: li}
+			env := &specEnv{v: v, fr: fr, st: st, old: li.headState, loop: li, over: ovHead}
 			t := env.evalBool(c.Expr)
 			o := v.addObl("ITER", fmt.Sprintf("loop%d:%s", li.ordinal, clauseName(c)), from.Instrs[len(from.Instrs)-1].Pos(), ec, t, c.Props, "")
 			o.Clause = c
@@ -1833,4 +1852,16 @@ func staticallyLiveBlocks(fn *ssa.Function) map[int]bool {
 		walk(fn.Blocks[0])
 	}
 	return live
+}
+
+func hasFuncArg(c *ssa.CallCommon) bool {
+	for _, a := range c.Args {
+		if _, isFn := under(a.Type()).(*types.Signature); isFn {
+			if k, isConst := a.(*ssa.Const); isConst && k.IsNil() {
+				continue
+			}
+			return true
+		}
+	}
+	return false
 }
